@@ -125,6 +125,10 @@ fn enc_case(rng: &mut Rng, out: &mut CaseOut) {
             if obs.nones_after_end != 3 {
                 out.violate("C12:recovery-iter-not-fused", format!("{desc}: iterator yielded Some after None"));
             }
+            if let Some(p) = obs.protocol.first() {
+                out.violate("C12:recovery-iter-protocol", format!("{desc}: round {round}: {p} ({} disagreements)", obs.protocol.len()));
+                return;
+            }
             for (p, got) in probes.iter().zip(&obs.probes) {
                 let want = if *p < r { Some(&obs.iter[*p]) } else { None };
                 if got.as_ref() != want {
@@ -235,6 +239,10 @@ fn dec_case(rng: &mut Rng, out: &mut CaseOut) {
             }
             if obs.nones_after_end != 3 {
                 out.violate("C12:restored-iter-not-fused", format!("{desc}: iterator yielded Some after None"));
+            }
+            if let Some(p) = obs.protocol.first() {
+                out.violate("C12:restored-iter-protocol", format!("{desc}: round {round}: {p} ({} disagreements)", obs.protocol.len()));
+                return;
             }
             for (p, got) in probes.iter().zip(&obs.probes) {
                 let want = if *p < k && !oi.contains(p) { Some(&originals[*p]) } else { None };
